@@ -336,18 +336,18 @@ def fault_histories(inst, kinds, keys=None):
     for t in exp["tasks"]:
         if keys and t["key"] not in keys: continue
         for kind in kinds:
-            if kind == "skip_output" and not t["outs"]: continue
+            if kind in ("skip_output", "dangling_link") and not t["outs"]: continue
             pk = [p for p in inst["procs"] if p["name"] == t["proc"]][0]["kind"]
             if pk == "gofunc" and kind not in ("exit_before_write", "exit_after_partial", "exit_after_all", "skip_output"): continue
             i2 = dict(inst); i2["faults"] = {t["key"]: kind}
             # a multi-output task that omits one output: the rename order is random, so repeat
-            reps = 4 if (kind == "skip_output" and len(t["outs"]) > 1) else 1
+            reps = 4 if (kind in ("skip_output", "dangling_link") and len(t["outs"]) > 1) else 1
             for r in range(reps):
                 out.append((i2, t["key"], kind, fs.History(i2, [("run", None)], label="task %s fails: %s" % (t["key"], kind))))
     return out
 
 # (no SIGINT kind: a check started as a background job of a non-interactive shell inherits SIGINT = ignored, the signal would do nothing)
-ALLFAULTS = ["exit_before_write", "exit_after_partial", "exit_after_all", "sigkill_self", "sigterm_self", "sigkill_shell", "skip_output"]
+ALLFAULTS = ["exit_before_write", "exit_after_partial", "exit_after_all", "sigkill_self", "sigterm_self", "sigkill_shell", "skip_output", "dangling_link"]
 
 def run_fault_cases(R, insts, kinds, chk):
     cases = []
@@ -361,7 +361,7 @@ def run_fault_cases(R, insts, kinds, chk):
         fs.run_history(h)
         res = None
         parallel = len([t for t in exp["tasks"] if not any(set(t["ins"]) & set(u["outs"]) for u in exp["tasks"])]) > 1 and i2.get("max", 1) > 1
-        if not parallel and kind != "sigkill_shell":
+        if not parallel and kind not in ("sigkill_shell", "dangling_link"):      # (a dangling link is in the temp-dir listing, the model has no such file)
             res = fs.validate_histories(i2, exp, [h], faults=i2["faults"])
         return c, exp, res
     for (i2, key, kind, h), exp, res in pmap(one, cases, workers=12):
@@ -564,6 +564,13 @@ def check_C09(tier):
     if thorough:
         z7 = zoo.Z7(n=3, mx=3); z7["ctl"] = {"ALL.sleep": "0.05"}; insts += [z7, zoo.Z1(n=3)]
     run_fault_cases(R, insts, ALLFAULTS, chk)
+    # the standard command followed by further members of an AND-list: the failure of a non-final member is still a failure
+    andl = [FA(), FB(2)]
+    for i in andl:
+        i["name"] += "AND"
+        for pr in i["procs"]:
+            if pr["kind"] == "cmd": pr["suffix"] = "&& true && echo validated > /dev/null"
+    run_fault_cases(R, andl, ["exit_after_all", "exit_after_partial"], chk)
     # tasks that cannot be formed
     for label, vals in (("missing parameter value", ["u", "", "w"]), ("invalid output path", ["u", "v*x", "w"])):
         inst = zoo.Z1(n=3); inst["feeds"] = [dict(to="a.p", values=vals)]; inst["name"] = "ZP"
